@@ -77,6 +77,7 @@ type pathState struct {
 	regions   []regionRec
 	observes  []obsRec
 	eqs       map[*Term]uint64
+	lits      map[*Term]bool
 	varCount  map[string]int
 	forks     int
 	decisions []int
@@ -148,10 +149,11 @@ type Results struct {
 	Truncated    bool
 	Steps        int64
 	Outcomes     map[string]int
+	ForkSites    map[string]int
 }
 
 func newResults() *Results {
-	return &Results{KnownSeen: map[string]int{}, Reached: map[string]int{}, Unsupported: map[string]int{}, InconcNotes: map[string]int{}, Outcomes: map[string]int{}}
+	return &Results{KnownSeen: map[string]int{}, Reached: map[string]int{}, Unsupported: map[string]int{}, InconcNotes: map[string]int{}, Outcomes: map[string]int{}, ForkSites: map[string]int{}}
 }
 
 type Stats struct {
@@ -252,6 +254,11 @@ func (e *Engine) branch(c *Term) bool {
 	if c.op == OpConst {
 		return c.c == 1
 	}
+	if e.preIdx >= len(e.pre) {
+		if v, ok := e.litKnown(c); ok {
+			return v
+		}
+	}
 	i, _ := e.decide("if", []alt{{cond: c}, {cond: e.tt.Not(c)}})
 	return i == 0
 }
@@ -262,6 +269,44 @@ func (e *Engine) assumeTerm(c *Term) {
 	}
 	e.ps.pc = append(e.ps.pc, c)
 	e.sv.Assert(c)
+	e.noteLit(c, true)
+}
+
+// litKnown looks a boolean term up among the literals already implied by the
+// path condition (syntactically).
+func (e *Engine) litKnown(c *Term) (bool, bool) {
+	neg := false
+	for c.op == OpNot {
+		c = c.a[0]
+		neg = !neg
+	}
+	v, ok := e.ps.lits[c]
+	if !ok {
+		return false, false
+	}
+	return v != neg, true
+}
+
+func (e *Engine) noteLit(c *Term, val bool) {
+	for c.op == OpNot {
+		c = c.a[0]
+		val = !val
+	}
+	if c.op == OpConst {
+		return
+	}
+	if val && c.op == OpAnd {
+		e.noteLit(c.a[0], true)
+		e.noteLit(c.a[1], true)
+	} else if !val && c.op == OpOr {
+		e.noteLit(c.a[0], false)
+		e.noteLit(c.a[1], false)
+	}
+	if _, ok := e.ps.lits[c]; ok {
+		return
+	}
+	e.ps.lits[c] = val
+	e.trail = append(e.trail, trailEntry{fn: func() { delete(e.ps.lits, c) }})
 }
 
 func (e *Engine) shardSkip() bool {
@@ -289,7 +334,7 @@ func (e *Engine) runUntilFork() (req *forkReq) {
 				e.done = true
 				e.outcome = x.why
 			default:
-				fmt.Fprintf(os.Stderr, "ENGINE PANIC: %v\n%s", r, e.stackTrace(e.th))
+				fmt.Fprintf(os.Stderr, "ENGINE PANIC: %v\n  at instr: %v\n%s", r, e.curInstr(), e.stackTrace(e.th))
 				panic(r)
 			}
 		}
@@ -328,6 +373,9 @@ func (e *Engine) explore() {
 		e.pre, e.preIdx = nil, 0
 		snap := e.snapshot()
 		e.res.Forks++
+		if e.cfg.Verbose > 0 {
+			e.res.ForkSites[req.what+"@"+e.th.top.fi.name]++
+		}
 		// feasibility of alternatives
 		nAlts := len(req.alts)
 		feasible := make([]SatResult, nAlts)
@@ -631,6 +679,9 @@ func mergeResults(all []*Results) *Results {
 		for k, n := range x.Outcomes {
 			r.Outcomes[k] += n
 		}
+		for k, n := range x.ForkSites {
+			r.ForkSites[k] += n
+		}
 		for _, s := range x.Samples {
 			if len(r.Samples) < 12 {
 				r.Samples = append(r.Samples, s)
@@ -639,4 +690,16 @@ func mergeResults(all []*Results) *Results {
 	}
 	sort.Slice(r.Violations, func(i, j int) bool { return r.Violations[i].Label < r.Violations[j].Label })
 	return r
+}
+
+func (e *Engine) curInstr() string {
+	if e.th == nil || e.th.top == nil {
+		return "?"
+	}
+	fr := e.th.top
+	if fr.blk < len(fr.fi.blocks) && fr.ip < len(fr.fi.blocks[fr.blk]) {
+		ins := fr.fi.blocks[fr.blk][fr.ip].ins
+		return fmt.Sprintf("%T %v", ins, ins)
+	}
+	return "?"
 }
